@@ -417,6 +417,14 @@ func (s *Sim) panicViolation(where string, r *Replica, pv interface{}, stack str
 	if os.Getenv("VERIF_DEBUG") != "" {
 		fmt.Fprintf(os.Stderr, "PANIC in %s replica %d height %d: %v\n%s\n", where, r.Idx, s.Height+1, pv, stack)
 	}
+	if msg := fmt.Sprint(pv); strings.Contains(msg, "supplementarysanity") && !strings.Contains(msg, "checkStaking") {
+		// The in-tree checker is registered as a second opinion on the staking ledger only; a
+		// failure of one of its other checks (e.g. registry: node expiration above a lowered
+		// MaxNodeExpiration) ends the run without a verdict.
+		s.St.Inc("probe.sanity_checker_failed_in_other_check")
+		s.Aborted = "sanity-checker-other-check"
+		return nil
+	}
 	if s.Prop == "C05" && strings.Contains(fmt.Sprint(pv), "supplementarysanity") {
 		return cViol("C05", "in-tree-sanity-check-failed", "in-tree-sanity-check-failed", fmt.Sprintf("replica %d: the in-tree supplementary sanity checker (second opinion) failed at height %d: %v", r.Idx, s.Height+1, pv))
 	}
